@@ -322,7 +322,7 @@ PROPS = {
                            "Rodbus.C14.disconnect_is_min", "Rodbus.C14.no_overflow", "Rodbus.C14.delay_le_max"],
         suites=[dict(gen="retry", n=(4000, 300000),
                      exhaustive="11x11 lattice of special (min,max) durations incl. 0, Duration::MAX, MAX/2, MAX/2+1"),
-                dict(gen="life", n=(20, 1200), jobs=16)],
+                dict(gen="life", n=(20, 1200), jobs=16), dict(gen="slife", n=(8, 300), jobs=8)],
         extra_oracle=lambda c, i: life_oracle(c, i) if c.startswith("life ") else None,
         level_text="Proof: kth_delay (by induction on the call sequence, for all (min,max) with max representable and all k: the k-th "
                    "consecutive after_failed_connect since creation/reset returns min*2^(k-1) capped at max), disconnect_is_min, "
@@ -525,9 +525,11 @@ PROPS = {
         assumptions=["harness built with overflow-checks and debug-assertions on (profile.dev)"],
     ),
     "C20": dict(
-        audit_modules=["RodbusModel.Audit.C20"],
+        audit_modules=["RodbusModel.Audit.C20", "RodbusModel.Audit.C20Client"],
         required_theorems=["Rodbus.C20.decode_noninterference_server", "Rodbus.C20.level_change_transparent_server",
-                           "Rodbus.C20.level_changes_transparent_server"],
+                           "Rodbus.C20.level_changes_transparent_server", "Rodbus.Client.decode_noninterference_client",
+                           "Rodbus.Client.level_change_content_irrelevant", "Rodbus.Client.level_change_is_a_queued_command",
+                           "Rodbus.Client.level_change_transparent_client_partial"],
         suites=[dict(gen="dec_srv", n=(150, 6000)), dict(gen="dec_rdr", n=(150, 6000)), dict(gen="dec_cl", n=(200, 8000))],
         level_text="Proof: decode_noninterference_server (the session model's bytes, application calls, final states and end kind do not depend on "
                    "the decode level: the level only selects log lines), level_change_transparent_server / level_changes_transparent_server (a "
@@ -535,9 +537,12 @@ PROPS = {
                    "byte is lost). Tie: every case of the C01-C06 generators is replayed at the lowest level, the highest level and a random one, and "
                    "with level changes injected at random positions of the script, with a formatting tracing subscriber installed; all variants must "
                    "equal the (level-independent) model output.",
-        level_note="The theorems are immediate because the model consults the level only for log lines - that this mirrors the code (tracing calls "
-                   "guarded by decode.*.enabled()) is what the paired runs check. Client-side non-interference: see the cl suite variants (added "
-                   "with the client model).",
+        level_note="Server side: immediate because the session model consults the level only for log lines - that this mirrors the code (tracing "
+                   "calls guarded by decode.*.enabled()) is what the paired runs check. Client side (Props/C20Client): decode_noninterference_client "
+                   "and level_change_content_irrelevant hold for every script; transparency of an INSERTED set-decode command is proved from quiescent "
+                   "states only (level_change_transparent_client_partial): in general the command occupies a queue slot (a later try-send can be "
+                   "refused: level_change_refused_when_full), is dequeued only after the outstanding transaction, and ends a session only if the "
+                   "channel is disabled.",
         technique="Lean 4 non-interference theorems over the session model + paired differential runs at different decode levels",
         classify=lambda c, i: ["level=" + c.split(" ")[2], "injected" if ("!d" in c.split(" ")[-1]) else "plain"],
         nontrivial=lambda c, i: i not in ("-", "") and "tx=- calls=- " not in i,
@@ -700,7 +705,7 @@ PROPS = {
                            "Rodbus.Client.drained_exactly_once", "Rodbus.Client.error_meaning_noconn", "Rodbus.Client.error_meaning_timeout",
                            "Rodbus.Client.error_meaning_transport", "Rodbus.Client.error_meaning_shutdown_task",
                            "Rodbus.Client.error_meaning_shutdown_partial", "Rodbus.Client.drain_completes_partial"],
-        suites=[dict(gen="cl_task", n=(1200, 120000), corpus=["cl"])],
+        suites=[dict(gen="cl_task", n=(1200, 120000), corpus=["cl"]), dict(gen="cl_block", n=(150, 5000))],
         extra_oracle=cl_task_oracle,
         level_text="Proof over the client-task model (queue, handles, one-in-flight transaction engine, phases, promises with Drop) for EVERY step "
                    "sequence, queue capacity, timeout limit, framing and every resolution of tokio::select! races (scheduler coins are universally "
@@ -747,8 +752,10 @@ PROPS = {
         required_theorems=["Rodbus.Client.timeout_iff", "Rodbus.Client.timeout_only_at_deadline", "Rodbus.Client.before_deadline",
                            "Rodbus.Client.timeout_keeps_connection", "Rodbus.Client.counter_exact", "Rodbus.Client.counter_restarts_per_session",
                            "Rodbus.Client.counter_no_limit", "Rodbus.Client.deadline_is_write_time_plus_timeout"],
-        suites=[dict(gen="cl_task", n=(1200, 120000), corpus=["cl"])],
-        extra_oracle=lambda c, i: cl_task_oracle(c, i, shutdown_clause=False),
+        suites=[dict(gen="cl_task", n=(1200, 120000), corpus=["cl"]),
+                # the limit as configured through the public ClientOptions builder on a real channel
+                dict(gen="life", n=(25, 800), jobs=16)],
+        extra_oracle=lambda c, i: life_oracle(c, i) if c.startswith("life ") else cl_task_oracle(c, i, shutdown_clause=False),
         level_text="Proof (virtual time as Nat, all step sequences and schedules): deadline_is_write_time_plus_timeout, timeout_iff "
                    "(a transmitted request times out at exactly t_tx + timeout iff no matching complete frame and no transport / framing error was "
                    "delivered before; otherwise it completes at the delivery time with that result; at the exact deadline both outcomes of the "
